@@ -337,3 +337,12 @@ ENTRIES["C14"]["text"] += (" Props/Tie.wrapper_reports_are_source ([G]): the joi
 ENTRIES["C04"]["text"] += (" Sampled additionally: the sorting weight of a Constraints object equals the requested number whatever constructor built it (C04.weight_kept; "
     "whole-degree limits go through from_degrees), a robot with shape keeps the order of its stack's answers (C11.exact_filter), and the wrist-singular "
     "continuation families of C05 (previous whole turns away) run under C04 with C05.first_eq_prev / C05.equal_shift.")
+ENTRIES["C06"]["text"] += (" Props/Tie.opw_entry_points_are_source ([G]): inverse_5dof / inverse_continuing_5dof as the CURRENT source composes them (J6 = prev[5] as given, "
+    "the CONSTRAINT_CENTERED sentinel resolving the reference vector only, dof-5 robots dispatched from inverse / inverse_continuing) are the model's entry points "
+    "(tools/rs2lean_opw.py, regenerated on every run).")
+ENTRIES["C08"]["text"] += (" Props/Tie.constraints_compliant_is_source and opw_entry_points_are_source ([G]): Constraints::compliant / filter and the solver's "
+    "filter_constraints_compliant, and the place of the filter at the end of each entry point, are translated from the CURRENT source on every run.")
+ENTRIES["C05"]["text"] += (" Props/Tie.singularCandidate_is_source ([G]): the wrist-singular recovery block of inverse_continuing, translated statement by statement from "
+    "the CURRENT source (branch test, both while-wraps, half difference with the joint signs), is the model's singularCandidate on which equal_shift is proved.")
+ENTRIES["C04"]["text"] += (" Props/Tie.sortCost_is_source ([G]): the comparators of sort_by_closeness in the CURRENT source compute the model's sortCost; "
+    "opw_entry_points_are_source: answers are normalised next to the reference, then sorted, then filtered.")
